@@ -36,6 +36,7 @@ ENC_CONTENT = [(E, 'ber.encoder::BooleanEncoder.encodeValue'), (E, 'cer.encoder:
                (E, 'ber.encoder::SequenceEncoder.encodeValue[value-object,any-size]'),
                (E, 'ber.encoder::OctetStringEncoder.encodeValue[value-object]'),
                (E, 'ber.encoder::SequenceOfEncoder._encodeComponents[value-object]'),
+               (E, 'ber.encoder::SequenceOfEncoder._encodeComponents[value-object,any-size]'),
                (E, 'ber.encoder::BitStringEncoder.encodeValue[value-object]'),
                (E, 'ber.encoder::ChoiceEncoder.encodeValue[value-object]'),
                (E, 'ber.encoder::AnyEncoder.encodeValue[value-object]')]
